@@ -430,6 +430,9 @@ func (s *Server) ServeConn(ctx context.Context, conn net.Conn) error {
 				Message:     followMsg,
 				RemoteAddr:  conn.RemoteAddr().String(),
 			}
+			if verifOn {
+				s.verifDispatch("auth", realCmd, followMsg != nil, c, neg)
+			}
 			if err := h.fn(ctx, c); err != nil {
 				if err == errKeepOpen {
 					return nil
@@ -457,6 +460,9 @@ func (s *Server) ServeConn(ctx context.Context, conn net.Conn) error {
 	if !ok || !h.raw {
 		_ = conn.Close()
 		return fmt.Errorf("cedar/server: no raw handler for command %d (%s)", cmd, commands.GetCommandName(cmd))
+	}
+	if verifOn {
+		s.verifDispatch("raw", cmd, false, &Conn{Stream: st, RemoteAddr: conn.RemoteAddr().String()}, nil)
 	}
 	return s.run(ctx, h, &Conn{
 		Stream:     st,
